@@ -1500,6 +1500,46 @@ def split_constant_tuples(trees, stats):
     ast.fix_missing_locations(tree)
 
 
+def inline_new_name_tuples(trees, stats):
+  """A new module-level `_KINDS = (ClassA, ClassB)` (a tuple of names the module binds once: classes, imports) is written out again where the module
+  reads it (`isinstance(x, _KINDS)`): same objects, same order.  Only within its own module, and only when no other module imports the name."""
+  b = load_baseline()
+  base = b.get('constants')
+  if base is None:
+    return
+  n = 0
+  for rel, tree in trees.items():
+    known = set(base.get(rel, []))
+    bound = {}
+    for st in tree.body:
+      for nm in ([st.name] if isinstance(st, FN + (ast.ClassDef,)) else
+                 [(a.asname or a.name).split('.')[0] for a in st.names] if isinstance(st, (ast.Import, ast.ImportFrom)) else
+                 [t.id for t in st.targets if isinstance(t, ast.Name)] if isinstance(st, ast.Assign) else []):
+        bound[nm] = bound.get(nm, 0) + 1
+    for st in list(tree.body):
+      if not (isinstance(st, ast.Assign) and len(st.targets) == 1 and isinstance(st.targets[0], ast.Name) and isinstance(st.value, ast.Tuple) and st.value.elts
+              and all(isinstance(e, ast.Name) and bound.get(e.id) == 1 for e in st.value.elts)):
+        continue
+      X = st.targets[0].id
+      if X in known or bound.get(X) != 1:
+        continue
+      if any(isinstance(x, ast.Name) and x.id == X and isinstance(x.ctx, (ast.Store, ast.Del)) and x is not st.targets[0] for x in ast.walk(tree)):
+        continue
+      if any(isinstance(a, ast.alias) and a.name == X for r2, t2 in trees.items() if r2 != rel for a in ast.walk(t2)):
+        continue
+      # the names must be bound before the first use either way: they are module-level definitions, uses sit in functions
+      uses = [x for x in ast.walk(tree) if isinstance(x, ast.Name) and x.id == X and isinstance(x.ctx, ast.Load)]
+      if not uses or any(any(u is y for y in ast.walk(top)) for u in uses for top in tree.body if not isinstance(top, FN + (ast.ClassDef,))):
+        continue
+      for u in uses:
+        _replace_node(tree, u, ast.copy_location(copy.deepcopy(st.value), u))
+      tree.body.remove(st)
+      n += 1
+    ast.fix_missing_locations(tree)
+  if n:
+    stats['name_tuples_inlined'] = n
+
+
 def inline_new_constants(trees, stats):
   """A module-level or class-level name that the reference tree does not have, bound exactly once to a literal constant (numbers, strings,
   tuples and arithmetic of those), is replaced by its value wherever it is read ("named constant for a magic number"), across modules."""
@@ -3170,6 +3210,7 @@ def restore_package(trees, stats):
     stats['namedtuple_error'] = repr(e)
   try:
     split_constant_tuples(trees, stats)
+    inline_new_name_tuples(trees, stats)
     for _ in range(2):       # a constant defined from another new constant
       inline_new_constants(trees, stats)
   except Exception as e:
